@@ -1209,6 +1209,44 @@ def _split(ex, self_val, args, kwargs, fr):
     raise Unsupported("str.split on symbolic string")
 
 
+@libfn("str.rsplit")
+def _rsplit(ex, self_val, args, kwargs, fr):
+    if _sconc(self_val, *args):
+        return ex.st.alloc(HList([VStr(p) for p in self_val.v.rsplit(*[a.v for a in args])]))
+    # s.rsplit(sep, 1) on a symbolic string, one-character literal separator: split at the LAST occurrence (if any)
+    if len(args) == 2 and _sconc(args[0]) and len(args[0].v) == 1 and isinstance(args[1], VInt) and is_conc(args[1].v) and args[1].v == 1:
+        zs = z_str(self_val.v)
+        i = z3.LastIndexOf(zs, z3.StringVal(args[0].v))
+        if ex.st.branch(i >= 0):
+            return ex.st.alloc(HList([VStr(z3.SubString(zs, 0, i)), VStr(z3.SubString(zs, i + 1, z3.Length(zs) - i - 1))]))
+        return ex.st.alloc(HList([self_val]))
+    raise Unsupported("str.rsplit on symbolic string")
+
+
+@libfn("str.partition", "str.rpartition")
+def _partition(ex, self_val, args, kwargs, fr, _name=None):
+    raise Unsupported("str.partition")
+
+
+def _mk_partition(right):
+    def h(ex, self_val, args, kwargs, fr):
+        if _sconc(self_val, *args):
+            r = (self_val.v.rpartition if right else self_val.v.partition)(args[0].v)
+            return VTuple([VStr(x) for x in r])
+        if len(args) == 1 and _sconc(args[0]) and len(args[0].v) == 1:
+            zs, sep = z_str(self_val.v), z3.StringVal(args[0].v)
+            i = z3.LastIndexOf(zs, sep) if right else z3.IndexOf(zs, sep, 0)
+            if ex.st.branch(i >= 0):
+                return VTuple([VStr(z3.SubString(zs, 0, i)), VStr(args[0].v), VStr(z3.SubString(zs, i + 1, z3.Length(zs) - i - 1))])
+            return VTuple([VStr(""), VStr(""), self_val]) if right else VTuple([self_val, VStr(""), VStr("")])
+        raise Unsupported("str.partition on symbolic string")
+    return h
+
+
+HANDLERS["str.partition"] = _mk_partition(False)
+HANDLERS["str.rpartition"] = _mk_partition(True)
+
+
 @libfn("str.join")
 def _join(ex, self_val, args, kwargs, fr):
     parts = ex.iterate(args[0], fr)
